@@ -57,7 +57,7 @@ class UnaryFun:
         return self.g.apply_unary(x)
 
 
-def random_grammar(rng, ncat, ntags, head_left=None, density=None, max_results=3, unary_p=0.25, mixed_heads=False):
+def random_grammar(rng, ncat, ntags, head_left=None, density=None, max_results=3, unary_p=0.25, mixed_heads=False, fat=False):
     """categories 0..ncat-1; tags are 0..ntags-1 (input list), the rest are created only by rules.
     Labels are unique per result so that trees and derivations are in bijection."""
     if head_left is None:
@@ -86,6 +86,23 @@ def random_grammar(rng, ncat, ntags, head_left=None, density=None, max_results=3
             if len(res) >= 2 and rng.random() < 0.3:
                 res[1] = (res[0][0],) + res[1][1:]
             unary[x] = res
+    if fat and ncat >= 30:
+        # a few pairs of tag categories (so that they are really used) and one unary entry with 17-24 results: result indices
+        # beyond 16, as a large grammar has them
+        for _ in range(rng.randint(1, 3)):
+            x, y = rng.randrange(ntags), rng.randrange(ntags)
+            res = []
+            for c in rng.sample(range(ncat), rng.randint(17, 24)):
+                h = head_left if not mixed_heads else rng.random() < 0.5
+                res.append((c, f'b{k}', f'<b{k}>', h))
+                k += 1
+            binary[(x, y)] = res
+        x = rng.randrange(ntags)
+        res = []
+        for c in rng.sample(range(x + 1, ncat), min(ncat - x - 1, rng.randint(17, 20))):
+            res.append((c, f'u{k}', f'<u{k}>'))
+            k += 1
+        unary[x] = res
     return TableGrammar(binary, unary), head_left
 
 
